@@ -241,6 +241,10 @@ pub enum Op {
     ModelDeriv(usize),
     /// `into_parallel()` and continue with whatever flavour the library returns
     IntoParallel,
+    /// this many caller threads query the shared problem (`&self`: residuals, coefficients,
+    /// Jacobian) at the same time; in overlap mode they are shuttle threads interleaved at the
+    /// model seam by the seeded scheduler, otherwise the queries run one after the other
+    ConcurrentQueries(u8),
 }
 
 /// one decision of the simulated work-stealing pool per `join`
